@@ -97,7 +97,7 @@ def plan(tier, seed):
             K4="12^4 over a 12-combination sub-alphabet (every lane count), gaps{1,2}, orders asc/desc",
         )
     shards += [("long", g, inter) for g in (1, 2, 100) for inter in ("none", "between", "inside")]
-    bounds["long"] = "sections of 128, 256 and 640 ticks walking through all 32 combinations x 4 flag sets, under 4 tempo / resolution environments and tick offsets up to 2^63"
+    bounds["long"] = "sections of 128, 256, 640 (and once 5120) ticks walking through all 32 combinations x 4 flag sets, under 4 tempo / resolution environments and tick offsets up to 2^63"
     return dict(shards=shards, bounds=bounds, budget_s=900 if tier == "thorough" else 240)
 
 
@@ -135,7 +135,7 @@ def run_shard(shard, ctx):
     kind = shard[0]
     if kind == "long":
         _, gap, inter = shard
-        for reps, order in ((1, "asc"), (2, "desc"), (5, "rot")):
+        for reps, order in ((1, "asc"), (2, "desc"), (5, "rot")) + (((40, "asc"),) if (gap, inter) == (1, "none") else ()):
             combos, flags = [], []
             for rep in range(reps):
                 for fi, f in enumerate(FLAGS):
